@@ -1098,6 +1098,8 @@ def cases(tier, seed):
             add("bias", dialect="cff", g=sz, l=5, gu=-1, lu=-1, **big)
             add("bias", dialect="cff", g=7, l=sz, gu=-1, lu=-1, **big)
             tot = 1300 if sz < 2000 else 34000
+            if sz in (33898, 33902):
+                continue        # pruning *onto* the upper boundary: 33899..33901 (each font costs ~1 CPU-minute)
             add("bias", dialect="cff", g=tot, l=9, gu=sz, lu=-1, **big)
             add("bias", dialect="cff", g=9, l=tot, gu=-1, lu=sz, **big)
         for sz in (1239, 1240, 33900):
